@@ -4,7 +4,7 @@ NOTES = ("All checks: ./check <id> --tier quick|thorough; setup builds the Coq d
          "and compiles the driver. known_findings.json lists recorded defects (kind known) and repaired ones (kind fixed).")
 NOT_APPLICABLE = {}
 # built, but their fix stage is in progress (model already in the repaired state, patches not yet committed to /repo)
-PENDING = {"C08", "C09", "C13"}
+PENDING = {"C08", "C09", "C12", "C13"}
 COMMON_NOTE = ("Trusted: Coq 8.16.1 kernel (+vm_compute), extraction (ExtrOcamlBasic, ExtrOcamlString), OCaml driver, the Python harness, "
                "CPython/torch as referents. Theorems are about the hand-written model; the model<->code tie is this run's differential "
                "correspondence, bounded by its generators (distribution in the evidence). ")
@@ -48,6 +48,20 @@ CHECKS = {
         "note": COMMON_NOTE + "_foreach_* kernels and per-tensor torch ops trusted. Raises on non-core operand combinations are tolerated by the oracle "
                 "and pinned only by the model. Known findings in findings.d/C09.json.",
         "technique": "Coq theorems over a Gallina transcription of the alignment / broadcast / reduction code + plan-level correspondence + reflection oracle",
+    },
+    "C12": {
+        "text": ("Proof (Coq, partial): for EVERY n, chunksize, num_chunks, worker count, generator / shuffle mode, `_split_tensordict` yields "
+                 "consecutive, non-empty, in-order slices covering [0,n) (closed form; at most num_chunks pieces; generator = split/chunk; "
+                 "`-(n // -k)` is the ceiling); the `_map` out= loop writes results back to back so that map of a row-wise function equals the "
+                 "function applied to the whole for out= none / regular / shared; shared-out writes, memmap writer tasks and consolidate assign "
+                 "tasks give the same result for EVERY completion order (induction over permutations); the multithreaded apply is independent of "
+                 "completion order for all options and equals the single-threaded `_apply_nest`. Trusted and named: `Pool.imap` yields in "
+                 "submission order, futures complete in any order; real preemption inside a task is not explored. Tie: exhaustive small-scope "
+                 "split grid, random map cases through an in-process pool plus real fork/spawn pools with inverted completion delays, and a "
+                 "deterministic permuting executor (all orders <= 5 tasks, random beyond) for thread pools, each against the sequential fold."),
+        "note": COMMON_NOTE + "names/batch_size/device/lazy stacks in the multithreaded apply, real pools, memmap files and n=0 are covered by the "
+                "differential run only. Known findings in findings.d/C12.json.",
+        "technique": "Coq theorems (chunk arithmetic by lia, order-freedom by induction over Permutation) + permuting-executor / real-pool differential runs",
     },
     "C13": {
         "text": ("Proof (Coq) in a faithful executable model of from_module / _to_module / __enter__ / __exit__ / _reverse_to_module / "
